@@ -733,6 +733,7 @@ class World(object):
         old_bound = dict(bound)
         m = z3.Int(ex.fresh_name('_n'))
         ex.assume(m >= 0)
+        g.state['old'], g.state['old_bound'] = old, old_bound
         event = {'callee': c.key, 'site': site, 'args': dict(bound), 'outcome': None, 'yields': m}
         ex.trace.append(event)
 
@@ -818,6 +819,21 @@ class World(object):
         scope['value'] = v
         scope['_yi'] = VInt(ex.yield_index.term + k)
         guard = z3.And(k >= 0, k < m)
+        # what the callee guarantees of its k-th element (proved at its own yields)
+        gc = g.contract
+        fsc = dict(g.binding)
+        fsc['G'] = ex.G
+        fsc['_i'] = VInt(k)
+        fsc['value'] = v
+        for text in gc.gen.get('facts', []):
+            saved = (ex.old_snap, ex.old_env)
+            ex.old_snap, ex.old_env = g.state['old'], g.state['old_bound']
+            try:
+                with ex._Old(ex, g.state['old']):
+                    f = truth(self.eval_in(ex, text, fsc))
+            finally:
+                ex.old_snap, ex.old_env = saved
+            ex.assume(z3.Implies(guard, f))
         for cl in c.on_yield:
             f = ex.eval_clause(cl, scope)
             ex.oblige('yield-from/%s' % cl.label, z3.Implies(guard, f), ex.props_of(cl, c), 'yield', expr=cl.expr)
